@@ -27,7 +27,7 @@ func evalC17(c C17Case) *h.Finding {
 	class := c.Code / 100
 	if strings.Contains(c.Msg, "{E}") {
 		// a text line that begins with the very enhanced code the reply carries
-		own := map[string]string{"set": fmt.Sprintf("%d.7.1", class), "setbig": fmt.Sprintf("%d.999.509", class), "mismatch": fmt.Sprintf("%d.2.2", 9-class), "notset": fmt.Sprintf("%d.0.0", class), "none": "5.7.1", "plain": "4.0.0"}[c.Enh]
+		own := map[string]string{"wrapped": "4.0.0", "set": fmt.Sprintf("%d.7.1", class), "setbig": fmt.Sprintf("%d.999.509", class), "mismatch": fmt.Sprintf("%d.2.2", 9-class), "notset": fmt.Sprintf("%d.0.0", class), "none": "5.7.1", "plain": "4.0.0"}[c.Enh]
 		if c.Enh == "plain" && c.Callback == "Data" {
 			own = "5.0.0"
 		}
@@ -55,6 +55,16 @@ func evalC17(c C17Case) *h.Finding {
 	case "none":
 		berr = &smtp.SMTPError{Code: c.Code, EnhancedCode: smtp.NoEnhancedCode, Message: c.Msg}
 		wantEnh = smtp.EnhancedCode{}
+	case "wrapped":
+		// an error that WRAPS an SMTPError is not an SMTPError: "any other error", reported with the generic code and
+		// its own (outer) text
+		berr = fmt.Errorf("%s: %w", c.Msg, &smtp.SMTPError{Code: 550, EnhancedCode: smtp.EnhancedCode{5, 1, 1}, Message: "inner no such user"})
+		wantMsg = berr.Error()
+		if c.Callback == "Data" {
+			wantCode, wantEnh = 554, smtp.EnhancedCode{5, 0, 0}
+		} else {
+			wantCode, wantEnh = 451, smtp.EnhancedCode{4, 0, 0}
+		}
 	case "plain":
 		berr = errors.New(c.Msg)
 		if c.Callback == "Data" {
@@ -93,12 +103,23 @@ func evalC17(c C17Case) *h.Finding {
 				wire = cs.ToClient()
 				return
 			}
+			// an error reply - whatever its code, 421 included - is the answer to ONE command: the server keeps the
+			// connection, so the next command is answered on its own merits
+			after := func() {
+				if f == nil && c.Callback != "NewSession" {
+					if err := cl.Noop(); err != nil {
+						f = h.F("c17-poisoned-after-error", "%s: after the error reply a plain Noop on the same connection returned %v", desc, err)
+					}
+				}
+			}
 			if !step("Mail", cl.Mail("ok@a.example", nil)) {
 				wire = cs.ToClient()
+				after()
 				return
 			}
 			if !step("Rcpt", cl.Rcpt("ok@b.example", nil)) {
 				wire = cs.ToClient()
+				after()
 				return
 			}
 			w, err := cl.Data()
@@ -109,6 +130,7 @@ func evalC17(c C17Case) *h.Finding {
 			w.Write([]byte("hello\r\n"))
 			step("Data", w.Close())
 			wire = cs.ToClient()
+			after()
 		})
 	})
 	if f != nil {
@@ -132,7 +154,7 @@ func evalC17(c C17Case) *h.Finding {
 		enhStr = fmt.Sprintf("%d.%d.%d", wantEnh[0], wantEnh[1], wantEnh[2])
 	}
 	textOK := func(text []string) bool {
-		if c.Enh == "plain" {
+		if c.Enh == "plain" || c.Enh == "wrapped" {
 			return strings.Contains(strings.Join(text, "\n"), wantMsg)
 		}
 		return strings.Join(text, "\n") == strings.Join(wantLines, "\n")
@@ -157,7 +179,7 @@ func evalC17(c C17Case) *h.Finding {
 		return nil
 	}
 	msgOK := se.Message == wantMsg
-	if c.Enh == "plain" {
+	if c.Enh == "plain" || c.Enh == "wrapped" {
 		msgOK = strings.Contains(se.Message, wantMsg)
 	}
 	if se.Code != wantCode || se.EnhancedCode != wantEnh || !msgOK {
@@ -325,7 +347,7 @@ func C17(tier string) int {
 		}
 	}
 	recLines(nil)
-	run.Rule = fmt.Sprintf("reply codes %v x enhanced code {set (class.7.1), set with three-digit components (class.999.509; hand-picked messages), set with the other class (4.2.2 on a 5xx reply and vice versa), EnhancedCodeNotSet, NoEnhancedCode} x %d message shapes (hand-picked: empty, leading/trailing space, text that looks like an enhanced code, non-ASCII, 1-3 lines, empty middle line, blank; plus ALL messages of 1-3 lines over the line shapes {empty, 'x', ' x', 'x ', '5.1.1 y', blanks, tab, printf verbs, a line starting with the reply's own enhanced code}) x callback {NewSession, Mail, Rcpt, Data}, plus non-SMTPError errors per callback x message shapes; each a real-client <-> real-server conversation; plus the Data verdicts of TWO consecutive transactions on one connection, each via {DATA, BDAT LAST, two BDAT chunks} x 5 verdict shapes each x {first backend call reads the message, returns its error without reading} (scripted peer: the go-smtp client has no BDAT). Distinct by construction; non-trivial = all. Oracle: wire reply (strict parser) and the client's returned *SMTPError both equal the backend's error (X.0.0 for an unset code, zero value for NoEnhancedCode); other errors => 451 (envelope) / 554 (data) with their text.", codes, len(msgs))
+	run.Rule = fmt.Sprintf("reply codes %v x enhanced code {set (class.7.1), set with three-digit components (class.999.509; hand-picked messages), set with the other class (4.2.2 on a 5xx reply and vice versa), EnhancedCodeNotSet, NoEnhancedCode} x %d message shapes (hand-picked: empty, leading/trailing space, text that looks like an enhanced code, non-ASCII, 1-3 lines, empty middle line, blank; plus ALL messages of 1-3 lines over the line shapes {empty, 'x', ' x', 'x ', '5.1.1 y', blanks, tab, printf verbs, a line starting with the reply's own enhanced code}) x callback {NewSession, Mail, Rcpt, Data}, plus non-SMTPError errors per callback x message shapes, incl. errors that WRAP an SMTPError (still 'any other error'); after every error reply a Noop on the same connection must work; each a real-client <-> real-server conversation; plus the Data verdicts of TWO consecutive transactions on one connection, each via {DATA, BDAT LAST, two BDAT chunks} x 5 verdict shapes each x {first backend call reads the message, returns its error without reading} (scripted peer: the go-smtp client has no BDAT). Distinct by construction; non-trivial = all. Oracle: wire reply (strict parser) and the client's returned *SMTPError both equal the backend's error (X.0.0 for an unset code, zero value for NoEnhancedCode); other errors => 451 (envelope) / 554 (data) with their text.", codes, len(msgs))
 	run.Assumptions = []string{"NoEnhancedCode combined with text that itself parses as an enhanced code is inherently ambiguous on the wire: only the reply code is judged there", "a generic Data error may be prefixed ('Error: transaction failed: ')"}
 	var cases []C17Case
 	for _, cb := range []string{"NewSession", "Mail", "Rcpt", "Data"} {
@@ -344,6 +366,9 @@ func C17(tier string) int {
 			if m != "" {
 				cases = append(cases, C17Case{Callback: cb, Enh: "plain", Msg: m, Code: 0})
 			}
+		}
+		for _, m := range []string{"outer context", "while delivering", "x"} {
+			cases = append(cases, C17Case{Callback: cb, Enh: "wrapped", Msg: m, Code: 0})
 		}
 	}
 	h.ParallelFor(len(cases), func(i int) {
